@@ -698,6 +698,87 @@ async fn real_scenario(unix: bool, scenario: u8, guard_s: u64) -> Result<(), Str
     Ok(())
 }
 
+/// Connection loss while the one operation of StartTLS establishment is pending: the establishing
+/// call must return an error (no connection timeout is configured, so nothing else bounds it).
+pub const STARTTLS_KINDS: [&str; 7] = [
+    "server-closes-before-reading",
+    "server-closes-after-the-request",
+    "response-for-an-unknown-id-then-close",
+    "unsolicited-notice-then-close",
+    "half-a-response-then-close",
+    "unsolicited-notice-then-refusal",
+    "response-for-an-unknown-id-then-refusal",
+];
+
+async fn starttls_scenario(kind: usize, guard_s: u64) -> Result<(), String> {
+    use std::time::Duration;
+    use tokio::io::{AsyncReadExt, AsyncWriteExt};
+    use tokio::net::TcpListener;
+    let l = TcpListener::bind("127.0.0.1:0").await.map_err(|e| format!("setup: {}", e))?;
+    let port = l.local_addr().map_err(|e| format!("setup: {}", e))?.port();
+    let srv = tokio::spawn(async move {
+        let (mut s, _) = match l.accept().await {
+            Ok(x) => x,
+            Err(_) => return,
+        };
+        if kind == 0 {
+            return;
+        }
+        let mut buf: Vec<u8> = vec![];
+        let mut tmp = [0u8; 1024];
+        let id = loop {
+            if let Some(t) = ber::outer_complete(&buf) {
+                match crate::msg::decode_request(&buf[..t]) {
+                    Ok(m) => break m.id,
+                    Err(_) => return,
+                }
+            }
+            match s.read(&mut tmp).await {
+                Ok(0) | Err(_) => return,
+                Ok(n) => buf.extend_from_slice(&tmp[..n]),
+            }
+        };
+        let ext = |id: i64, rc: u32| ber::encode_min(&resp_node(id, &Resp::Extended { res: Res::code(rc, "x"), name: None, value: None }, None));
+        match kind {
+            1 => {}
+            2 => {
+                let _ = s.write_all(&ext(id + 1000, 0)).await;
+            }
+            3 => {
+                let _ = s.write_all(&ext(0, 52)).await;
+            }
+            4 => {
+                let b = ext(id, 0);
+                let _ = s.write_all(&b[..b.len() / 2]).await;
+            }
+            5 => {
+                let _ = s.write_all(&ext(0, 52)).await;
+                tokio::time::sleep(Duration::from_millis(50)).await;
+                let _ = s.write_all(&ext(id, 2)).await;
+                // stay around: only the refusal may end the establishment
+                tokio::time::sleep(Duration::from_secs(guard_s + 2)).await;
+            }
+            _ => {
+                let _ = s.write_all(&ext(id + 1000, 0)).await;
+                tokio::time::sleep(Duration::from_millis(50)).await;
+                let _ = s.write_all(&ext(id, 2)).await;
+                tokio::time::sleep(Duration::from_secs(guard_s + 2)).await;
+            }
+        }
+        let _ = s.flush().await;
+        tokio::time::sleep(Duration::from_millis(100)).await;
+    });
+    let settings = ldap3::LdapConnSettings::new().set_starttls(true).set_no_tls_verify(true);
+    let url = format!("ldap://127.0.0.1:{}", port);
+    let res = tokio::time::timeout(Duration::from_secs(guard_s), ldap3::LdapConnAsync::with_settings(settings, &url)).await;
+    srv.abort();
+    match res {
+        Err(_) => Err("ESTABLISHMENT-HANGS".into()),
+        Ok(Ok(_)) => Err("establishment succeeded although StartTLS never succeeded".into()),
+        Ok(Err(_)) => Ok(()),
+    }
+}
+
 pub fn real_transports(ctx: &Ctx) -> Report {
     let mut rep = Report::new();
     let rt = tokio::runtime::Builder::new_multi_thread().worker_threads(2).enable_all().build().expect("rt");
@@ -728,7 +809,38 @@ pub fn real_transports(ctx: &Ctx) -> Report {
             }
         }
     }
+    // StartTLS establishment losing its connection (TCP only; the handshake itself is never reached)
+    let mut hung: Vec<usize> = vec![];
+    for r in 0..reps {
+        for kind in 0..STARTTLS_KINDS.len() {
+            if hung.contains(&kind) {
+                // already established twice over (8 s, then 40 s alone); don't spend another minute per repetition
+                continue;
+            }
+            let name = format!("starttls-establishment:{}", STARTTLS_KINDS[kind]);
+            let replay = json!({"lane":"real_transports","starttls_kind":kind});
+            let mut res = rt.block_on(starttls_scenario(kind, 8));
+            if matches!(&res, Err(e) if e == "ESTABLISHMENT-HANGS") {
+                let second = rt.block_on(starttls_scenario(kind, 40));
+                if second.is_ok() {
+                    rep.inconclusive(format!("{}: first attempt expired on the wall clock, the retry passed", name));
+                    continue;
+                }
+                res = second;
+            }
+            match res {
+                Ok(()) => rep.count(&format!("ok_{}", name), 1),
+                Err(e) if e.starts_with("setup:") => rep.inconclusive(format!("{}: {}", name, e)),
+                Err(e) if e == "ESTABLISHMENT-HANGS" => {
+                    hung.push(kind);
+                    rep.violation(format!("C04:real-transport:{}:establishment-hangs", name), format!("{}: LdapConnAsync::with_settings (StartTLS, no connection timeout) still pending after 8 s and, alone, after 40 s", name), replay)
+                }
+                Err(e) => rep.violation(format!("C04:real-transport:{}:establishment-succeeds", name), format!("{}: {}", name, e), replay),
+            }
+            rep.case(Some(fnv(format!("{}{}", name, r).as_bytes())));
+        }
+    }
     rt.shutdown_background();
-    rep.sample(json!({"lane":"real_transports","transports":["tcp loopback","unix socket pair (StdStream::Unix)"],"scenarios":["unbind with the handle kept alive","last handle dropped","server closes after a reply"]}));
+    rep.sample(json!({"lane":"real_transports","starttls_establishment_kinds":STARTTLS_KINDS,"transports":["tcp loopback","unix socket pair (StdStream::Unix)"],"scenarios":["unbind with the handle kept alive","last handle dropped","server closes after a reply"]}));
     rep
 }
